@@ -292,6 +292,7 @@ theorem raiseClass_step (env : Env) (fuel : Nat) (ih : IH env fuel) (cls : Text)
     · rename_i heq; cases heq; exact h
     · rename_i heq; cases heq; exact h
     · rename_i heq; cases heq; exact h
+    · rename_i heq; cases heq; exact h
 
 theorem renderBlocks_step (env : Env) (fuel : Nat) (ih : IH env fuel) (bs : List Blk) (st : St) :
     Pres st (renderBlocks env (fuel + 1) bs st).2 := by
@@ -569,31 +570,48 @@ theorem renderBlk_step (env : Env) (fuel : Nat) (ih : IH env fuel) (b : Blk) (st
     have h0 := ih.raiseClass cls clsExpr st
     generalize raiseClass env fuel cls clsExpr st = rc at h0
     obtain ⟨cn, st0⟩ := rc
-    dsimp only
-    have h1 := ih.renderJoined body st0
-    generalize renderJoined env fuel body st0 = res at h1
-    obtain ⟨r, st1⟩ := res
-    cases r <;> exact h0.trans h1
+    cases cn with
+    | none => exact h0
+    | some cn =>
+      dsimp only
+      have h1 := ih.renderJoined body st0
+      generalize renderJoined env fuel body st0 = res at h1
+      obtain ⟨r, st1⟩ := res
+      cases r <;> exact h0.trans h1
   | tryFin body fin =>
     unfold renderBlk
     dsimp only
     have h1 := ih.renderJoined body st
     generalize renderJoined env fuel body st = res1 at h1
     obtain ⟨r, st1⟩ := res1
-    dsimp only
-    have h2 := ih.renderJoined fin st1
-    generalize renderJoined env fuel fin st1 = res2 at h2
-    obtain ⟨r2, st2⟩ := res2
-    cases r2 with
-    | ok q =>
-      cases r with
-      | ok p => dsimp only; rw [join2_snd]; exact h1.trans h2
+    have hrest : Pres st (match renderJoined env fuel fin st1 with
+        | (.ok q, st2) =>
+          (match r with
+           | .ok p => join2 env p q st2
+           | .raise e => (.raise e, st2)
+           | .ret v => (.ret v, st2)
+           | .oom => (.oom, st2))
+        | (.raise e, st2) => (.raise e, st2)
+        | (.ret v, st2) => (.ret v, st2)
+        | (.oom, st2) => (.oom, st2)).2 := by
+      have h2 := ih.renderJoined fin st1
+      generalize renderJoined env fuel fin st1 = res2 at h2
+      obtain ⟨r2, st2⟩ := res2
+      cases r2 with
+      | ok q =>
+        cases r with
+        | ok p => dsimp only; rw [join2_snd]; exact h1.trans h2
+        | raise e => exact h1.trans h2
+        | ret v => exact h1.trans h2
+        | oom => exact h1.trans h2
       | raise e => exact h1.trans h2
       | ret v => exact h1.trans h2
       | oom => exact h1.trans h2
-    | raise e => exact h1.trans h2
-    | ret v => exact h1.trans h2
-    | oom => exact h1.trans h2
+    cases r with
+    | oom => exact h1
+    | ok p => exact hrest
+    | raise e => exact hrest
+    | ret v => exact hrest
   | try_ body handlers els =>
     unfold renderBlk
     dsimp only
